@@ -281,7 +281,7 @@ int main(int argc, char **argv) {
     if (a.n >= 0) { ngen = a.n; nlay = a.n; }
     long k = 0;
     for (long i = 0; i < ngen; ++i, ++k) if (a.want(k)) genCase(k, a);
-    const unsigned limit = thorough ? 20 : 5;
+    const unsigned limit = thorough ? 10 : 5;
     for (long i = 0; i < nlay; ++i, ++k) {
         if (!a.want(k)) continue;
         fflush(stdout);
